@@ -32,9 +32,10 @@ import (
 func init() { Registry["C11"] = c11 }
 
 type mutation struct {
-	Class string
-	Body  []byte
-	CT    string
+	Class   string
+	Body    []byte
+	CT      string
+	Chunked bool // sent without Content-Length (Transfer-Encoding: chunked), as a streaming peer or proxy does
 }
 
 // leafPaths lists paths to every leaf (and container) of a JSON tree.
@@ -96,7 +97,7 @@ func getAt(root any, path []any) any {
 func mutations(valid []byte, wireBody []byte, thorough bool) []mutation {
 	var out []mutation
 	j := "application/json"
-	add := func(class string, b []byte) { out = append(out, mutation{class, b, j}) }
+	add := func(class string, b []byte) { out = append(out, mutation{Class: class, Body: b, CT: j}) }
 	// truncation at token boundaries
 	for i := 1; i < len(valid); i++ {
 		c := valid[i]
@@ -161,15 +162,28 @@ func mutations(valid []byte, wireBody []byte, thorough bool) []mutation {
 	add("long-string", []byte(`{"label":"`+strings.Repeat("x", 1<<20)+`"}`))
 	// protobuf content types
 	for _, ct := range []string{"application/x-protobuf", "application/octet-stream"} {
-		out = append(out, mutation{"proto-valid", wireBody, ct})
+		out = append(out, mutation{Class: "proto-valid", Body: wireBody, CT: ct})
 		if len(wireBody) > 1 {
-			out = append(out, mutation{"proto-truncated", wireBody[:len(wireBody)-1], ct}, mutation{"proto-truncated-half", wireBody[:len(wireBody)/2], ct})
+			out = append(out, mutation{Class: "proto-truncated", Body: wireBody[:len(wireBody)-1], CT: ct}, mutation{Class: "proto-truncated-half", Body: wireBody[:len(wireBody)/2], CT: ct})
 		}
-		out = append(out, mutation{"proto-garbage", []byte{0xff, 0xff, 0xff, 0xff, 0xff, 0xff, 0xff, 0xff, 0xff, 0xff, 0x01}, ct},
-			mutation{"proto-bad-wiretype", []byte{0x0f, 0x01}, ct}, mutation{"proto-huge-length", []byte{0x0a, 0xff, 0xff, 0xff, 0xff, 0x0f}, ct},
-			mutation{"proto-json-body", valid, ct}, mutation{"proto-group-end", []byte{0x0c}, ct}, mutation{"proto-field-zero", []byte{0x00, 0x00}, ct})
+		out = append(out, mutation{Class: "proto-garbage", Body: []byte{0xff, 0xff, 0xff, 0xff, 0xff, 0xff, 0xff, 0xff, 0xff, 0xff, 0x01}, CT: ct},
+			mutation{Class: "proto-bad-wiretype", Body: []byte{0x0f, 0x01}, CT: ct}, mutation{Class: "proto-huge-length", Body: []byte{0x0a, 0xff, 0xff, 0xff, 0xff, 0x0f}, CT: ct},
+			mutation{Class: "proto-json-body", Body: valid, CT: ct}, mutation{Class: "proto-group-end", Body: []byte{0x0c}, CT: ct}, mutation{Class: "proto-field-zero", Body: []byte{0x00, 0x00}, CT: ct})
 	}
-	out = append(out, mutation{"json-as-text-plain", valid, "text/plain"}, mutation{"json-no-content-type", valid, ""}, mutation{"wire-as-json", wireBody, j})
+	out = append(out, mutation{Class: "json-as-text-plain", Body: valid, CT: "text/plain"}, mutation{Class: "json-no-content-type", Body: valid}, mutation{Class: "wire-as-json", Body: wireBody, CT: j})
+	out = append(out, mutation{Class: "valid", Body: valid, CT: j})
+	// the same bodies from a peer that streams them (no Content-Length): the server must read and
+	// decode them all the same
+	n := len(out)
+	for i := 0; i < n; i++ {
+		m := out[i]
+		switch {
+		case m.Class == "valid", m.Class == "truncated-last-byte", m.Class == "garbage", m.Class == "not-json", m.Class == "top-array", m.Class == "unknown-key", m.Class == "whitespace",
+			m.Class == "proto-valid", m.Class == "proto-garbage", m.Class == "proto-truncated", m.Class == "proto-json-body", m.Class == "json-no-content-type",
+			thorough && (strings.HasPrefix(m.Class, "leaf-replaced-by-") || m.Class == "truncated") && i%4 == 0:
+			out = append(out, mutation{Class: m.Class + "/chunked", Body: m.Body, CT: m.CT, Chunked: true})
+		}
+	}
 	return out
 }
 
@@ -362,13 +376,17 @@ func c11(c *Ctx) {
 			if mu.CT != "" {
 				hdr = append(hdr, [2]string{"Content-Type", mu.CT})
 			}
-			resp, err := rawHTTP("POST", gs.URL, u.FP.Path["top"], hdr, mu.Body)
+			send := rawHTTP
+			if mu.Chunked {
+				send = rawHTTPChunked
+			}
+			resp, err := send("POST", gs.URL, u.FP.Path["top"], hdr, mu.Body)
 			c.R.Eval(1)
 			bodyShown := string(mu.Body)
 			if len(bodyShown) > 600 {
 				bodyShown = bodyShown[:300] + "…" + bodyShown[len(bodyShown)-200:]
 			}
-			rp := map[string]any{"proto": protoText, "mutation": mu.Class, "mutation_index": mi, "content_type": mu.CT, "body_len": len(mu.Body), "body": bodyShown, "body_b64_head": b64(mu.Body[:min(len(mu.Body), 400)])}
+			rp := map[string]any{"proto": protoText, "mutation": mu.Class, "mutation_index": mi, "content_type": mu.CT, "chunked": mu.Chunked, "body_len": len(mu.Body), "body": bodyShown, "body_b64_head": b64(mu.Body[:min(len(mu.Body), 400)])}
 			if err != nil {
 				// connection-level failure: did the child die?
 				if _, serr := syncEvents(ch); serr != nil {
